@@ -208,8 +208,10 @@ func rsattr(in *In) r3.Sattr3 {
 	if in.SetSz {
 		s.Size = r3.Set_size3{Set_it: true, Size: r3.Size3(in.Size)}
 	}
-	if in.SetTm {
+	if in.SetTm || in.SetMt {
 		s.Mtime = r3.Set_mtime{Set_it: r3.SET_TO_SERVER_TIME}
+	}
+	if in.SetTm || in.SetAt {
 		s.Atime = r3.Set_atime{Set_it: r3.SET_TO_CLIENT_TIME, Atime: r3.Nfstime3{Seconds: 77, Nseconds: 5}}
 	}
 	return s
